@@ -92,7 +92,7 @@ func toolMain(args []string) error {
 		if kind == "sc" {
 			var items []string
 			for i := 0; i < plan.N; i++ {
-				items = append(items, fmt.Sprintf(`{"file":"-","line":%d,"endLine":%d,"column":1,"endColumn":2,"level":"warning","code":%d,"message":"issue %d of %s."}`, i+2, i+2, 2000+i, i, tok))
+				items = append(items, fmt.Sprintf(`{"file":"-","line":%d,"endLine":%d,"column":1,"endColumn":2,"level":"warning","code":%d,"message":"issue %d of %s."}`, i+1, i+1, 2000+i, i, tok)) // the first issue is at the injected setup line
 			}
 			fmt.Print("[" + strings.Join(items, ",") + "]")
 		} else {
@@ -367,10 +367,15 @@ func renderPoolFile(f poolFile) (string, map[int]string) {
 	w := func(s string) { sb.WriteString(s + "\n"); line++ }
 	runLines := map[int]string{}
 	w("on: push")
+	// the pseudo shell "<wd>" stands for: the section/step exists and gives working-directory but no shell
 	if f.DefaultShell != "" {
 		w("defaults:")
 		w("  run:")
-		w("    shell: " + f.DefaultShell)
+		if f.DefaultShell == "<wd>" {
+			w("    working-directory: .")
+		} else {
+			w("    shell: " + f.DefaultShell)
+		}
 	}
 	w("jobs:")
 	for ji, j := range f.Jobs {
@@ -383,13 +388,21 @@ func renderPoolFile(f poolFile) (string, map[int]string) {
 		if j.DefaultShell != "" {
 			w("    defaults:")
 			w("      run:")
-			w("        shell: " + j.DefaultShell)
+			if j.DefaultShell == "<wd>" {
+				w("        working-directory: .")
+			} else {
+				w("        shell: " + j.DefaultShell)
+			}
 		}
 		w("    steps:")
 		for _, s := range j.Steps {
 			first := true
 			if s.Shell != "" {
-				w("      - shell: " + s.Shell)
+				if s.Shell == "<wd>" {
+					w("      - working-directory: .")
+				} else {
+					w("      - shell: " + s.Shell)
+				}
 				first = false
 			}
 			prefix := "        "
